@@ -6,8 +6,8 @@ import numpy as np
 from common import Kernel, call_impl, coq_list, fl, grid, grid_vec, q, qv
 
 ID = "C12"
-N_CASES = {"quick": 360, "thorough": 6000, "search": 3000}
-SHARD = 60
+N_CASES = {"quick": 360, "thorough": 4200, "search": 3000}
+SHARD = 30
 RULE = ("seeded streams per function (world_to_view, view_to_orthographic_projection, viewport_transform, "
         "world_to_canvas_orthographic_projection), each case records the matrix for inverse=False and inverse=True; "
         "dyadic-grid parameters times power-of-two scales (quick 2^-10..2^10, thorough 2^-30..2^30), ~12% boundary "
@@ -58,11 +58,11 @@ Ltac merge_named_sqrts :=
   end.
 Ltac abstract_sqrts :=
   repeat (progress (name_inner_sqrts; merge_named_sqrts));
-  repeat match goal with n := sqrt _ |- _ => clearbody n end;
   unfold Rdiv;
   repeat match goal with
-  | n : R |- context [/ ?x] => constr_eq x n; let i := fresh "isq" in set (i := / n); clearbody i
-  end.
+  | n := sqrt _ |- context [/ ?x] => constr_eq x n; let i := fresh "isq" in set (i := / n); clearbody i
+  end;
+  repeat match goal with n := sqrt _ |- _ => clearbody n end.
 """
 _NZ = "Ltac nz := repeat split; try lra; try assumption; auto with real.\n"
 
@@ -156,73 +156,83 @@ Proof.
 Qed.""" % {"unf": _UNF, "entry": _ENTRY, "gen": _GEN},
         imports=_IMPORTS))
 
+    # ---- apply_transform: what "the matrix maps point p to q" means in the theorems (Mat.mapply_pt / mapply_vec) ----
+    from polliwog.transform import apply_transform
+    M = "(M4 m0 m1 m2 m3 m4 m5 m6 m7 m8 m9 m10 m11 m12 m13 m14 m15)"
+    ks.append(Kernel(
+        "apply", {"m": [[1.0, 2.0, 3.0, 4.0], [0.5, -1.0, 2.0, 0.25], [3.0, 1.0, -2.0, 1.5], [0.0, 0.0, 0.0, 1.0]], "p": [0.5, 2.0, -1.0]},
+        lambda m, p: (apply_transform(m)(p), apply_transform(m)(p, treat_input_as_vector=True)),
+        """Lemma {T}_ok : forall {vars} : R,
+  {T} ROps {vars} = vlist (mapply_pt ROps %(M)s %(P)s) ++ vlist (mapply_vec ROps %(M)s %(P)s).
+Proof. intros. unfold {T}. cbv [app]; munf. list_eq_ring. Qed.""" % {"M": M, "P": P},
+        imports=_IMPORTS))
+
     # ---- canvas: three stages, default near/far are Python floats so the z entries are binary64 constants ---
     near, far = 0.1, 2000
     zs_f, zt_f = -2 / (far - near), -(far + near) / (far - near)
     zs_i, zt_i = (far - near) / -2, (far + near) / (far - near)
     consts = {"zsf": _R(zs_f), "ztf": _R(zt_f), "zsi": _R(zs_i), "zti": _R(zt_i)}
-    def canvas_all(w, h, p, t, zm):
-        w, h, z = w[0], h[0], zm[0]
-        out = [world_to_canvas_orthographic_projection(w, h, p, t, zoom=z),
-               world_to_canvas_orthographic_projection(w, h, p, t, zoom=z, inverse=True)]
-        for inverse in (False, True):  # the three public stage functions, called the way the property describes
-            out += [world_to_view(position=p, target=t, inverse=inverse),
+    def canvas_dir(inverse):
+        def run(w, h, p, t, zm):
+            w, h, z = w[0], h[0], zm[0]
+            # the composite, then the three public stage functions called the way the property describes
+            return (world_to_canvas_orthographic_projection(w, h, p, t, zoom=z, inverse=inverse),
+                    world_to_view(position=p, target=t, inverse=inverse),
                     view_to_orthographic_projection(width=w / z, height=h / z, inverse=inverse),
-                    viewport_transform(x_right=w, y_bottom=h, inverse=inverse)]
-        return tuple(out)
+                    viewport_transform(x_right=w, y_bottom=h, inverse=inverse))
+        return run
 
     L = "({T} ROps {vars})"
-    ks.append(Kernel(
-        "canvas", {"w": [640.0], "h": [480.0], "p": [1.0, 2.0, 3.0], "t": [0.5, -1.0, 4.0], "zm": [1.5]}, canvas_all,
-        _NZ + _ROB + """(* outputs: canvas(inverse=False), canvas(inverse=True), then view / projection / viewport for inverse=False and for
-   inverse=True, all from ONE run of the code: segment k = entries 16k .. 16k+15 *)
+    for inverse in (False, True):
+        d = dict(consts, P=P, T=T, unf=_UNF, entry=_ENTRY, gen=_GEN, inv="true" if inverse else "false",
+                 zs=consts["zsi" if inverse else "zsf"], zt=consts["zti" if inverse else "ztf"],
+                 # inverse=False: viewport @ projection @ view ; inverse=True: view^-1 @ projection^-1 @ viewport^-1
+                 order=("(m4l (seg 1 %(L)s)) (m4l (seg 2 %(L)s))) (m4l (seg 3 %(L)s))" if inverse else
+                        "(m4l (seg 3 %(L)s)) (m4l (seg 2 %(L)s))) (m4l (seg 1 %(L)s))"),
+                 bound="1 / 10 ^ 9" if inverse else "1 / 10 ^ 12")
+        text = _NZ + _ROB + """(* outputs: canvas matrix, then view / projection / viewport matrices (all for inverse=%(inv)s) from ONE run of the code:
+   segment k = entries 16k .. 16k+15 *)
 Definition m4l (l : list R) : mat4 R :=
   match l with
   | [a; b; c; d; e; f; g; h; i; j; k; l'; m; n; o; p] => M4 a b c d e f g h i j k l' m n o p
   | _ => I4 ROps
   end.
 Definition seg (k : nat) (l : list R) : list R := firstn 16 (skipn (16 * k) l).
-Ltac segunf := cbv [seg firstn skipn Nat.mul Nat.add m4l]; munf.
 
 (* 1. the property clause itself, on the matrices the code returned: the canvas matrix is the product of the three stage
-      matrices in order (view first), and for inverse=True the product of the stage inverses in reverse order *)
+      matrices in order (view applied first; for inverse=True the stage inverses in reverse order) *)
 Lemma {T}_compose : forall {vars} : R,
-  seg 0 %(L)s = mlist (mmul ROps (mmul ROps (m4l (seg 4 %(L)s)) (m4l (seg 3 %(L)s))) (m4l (seg 2 %(L)s))) /\\
-  seg 1 %(L)s = mlist (mmul ROps (mmul ROps (m4l (seg 5 %(L)s)) (m4l (seg 6 %(L)s))) (m4l (seg 7 %(L)s))).
-Proof. intros. unfold {T}. segunf. %(gen)s. split; list_eq ltac:(first [reflexivity | ring]). Qed.
+  seg 0 %(L)s = mlist (mmul ROps (mmul ROps %(order)s).
+Proof. intros. unfold {T}. cbv [seg firstn skipn Nat.mul Nat.add m4l]; munf. %(gen)s. list_eq ltac:(first [reflexivity | ring]). Qed.
 
 (* 2. the stages are the modelled ones, with width/zoom, height/zoom, the default up = y, the viewport (0,0)-(w,h), and the
       z entries of the projection as the code computes them from near=0.1 (binary64), far=2000 *)
-Definition zsf : R := %(zsf)s.  Definition ztf : R := %(ztf)s.
-Definition zsi : R := %(zsi)s.  Definition zti : R := %(zti)s.
+Definition zs : R := %(zs)s.  Definition zt : R := %(zt)s.
 Lemma {T}_stages : forall {vars} : R, 0 < w0 -> 0 < h0 -> 0 < zm0 ->
-  m4l (seg 2 %(L)s) = w2v_mat ROps %(P)s %(T)s (V3 0 1 0) false /\\
-  m4l (seg 3 %(L)s) = ortho_mat_c ROps (w0 / zm0) (h0 / zm0) zsf ztf false /\\
-  m4l (seg 4 %(L)s) = viewport_mat ROps w0 h0 0 0 false /\\
-  m4l (seg 5 %(L)s) = w2v_mat ROps %(P)s %(T)s (V3 0 1 0) true /\\
-  m4l (seg 6 %(L)s) = ortho_mat_c ROps (w0 / zm0) (h0 / zm0) zsi zti true /\\
-  m4l (seg 7 %(L)s) = viewport_mat ROps w0 h0 0 0 true.
-Proof. intros. unfold {T}, zsf, ztf, zsi, zti. cbv [seg firstn skipn Nat.mul Nat.add m4l]. %(unf)s. abstract_sqrts.
+  m4l (seg 1 %(L)s) = w2v_mat ROps %(P)s %(T)s (V3 0 1 0) %(inv)s /\\
+  m4l (seg 2 %(L)s) = ortho_mat_c ROps (w0 / zm0) (h0 / zm0) zs zt %(inv)s /\\
+  m4l (seg 3 %(L)s) = viewport_mat ROps w0 h0 0 0 %(inv)s.
+Proof. intros. unfold {T}, zs, zt. cbv [seg firstn skipn Nat.mul Nat.add m4l]. %(unf)s. abstract_sqrts.
   repeat split; apply M4_ext; %(entry)s. Qed.
 
 (* ... which are the exact entries for near = 1/10, far = 2000 up to binary64 rounding *)
 Lemma {T}_constants :
-  Rabs (zsf - ortho_zscale ROps (1 / 10) 2000 false) <= 1 / 10 ^ 12 /\\
-  Rabs (ztf - ortho_ztrans ROps (1 / 10) 2000 false) <= 1 / 10 ^ 12 /\\
-  Rabs (zsi - ortho_zscale ROps (1 / 10) 2000 true) <= 1 / 10 ^ 9 /\\
-  Rabs (zti - ortho_ztrans ROps (1 / 10) 2000 true) <= 1 / 10 ^ 12.
-Proof. unfold zsf, ztf, zsi, zti, ortho_zscale, ortho_ztrans; rops. repeat split; apply Rabs_le; lra. Qed.
+  Rabs (zs - ortho_zscale ROps (1 / 10) 2000 %(inv)s) <= %(bound)s /\\
+  Rabs (zt - ortho_ztrans ROps (1 / 10) 2000 %(inv)s) <= 1 / 10 ^ 12.
+Proof. unfold zs, zt, ortho_zscale, ortho_ztrans; rops. split; apply Rabs_le; lra. Qed.
 
-(* 3. hence the traced canvas matrices are the modelled ones *)
+(* 3. hence the traced canvas matrix is the modelled one *)
 Lemma {T}_ok : forall {vars} : R, 0 < w0 -> 0 < h0 -> 0 < zm0 ->
-  seg 0 %(L)s = mlist (canvas_mat_c ROps zsf ztf w0 h0 %(P)s %(T)s zm0 false) /\\
-  seg 1 %(L)s = mlist (canvas_mat_c ROps zsi zti w0 h0 %(P)s %(T)s zm0 true).
+  seg 0 %(L)s = mlist (canvas_mat_c ROps zs zt w0 h0 %(P)s %(T)s zm0 %(inv)s).
 Proof.
-  intros {vars} Hw Hh Hz. destruct ({T}_compose {vars}) as [C0 C1].
-  destruct ({T}_stages {vars} Hw Hh Hz) as (S2 & S3 & S4 & S5 & S6 & S7).
-  rewrite C0, C1, S2, S3, S4, S5, S6, S7. split; reflexivity.
-Qed.""".replace("%(L)s", L) % dict(consts, P=P, T=T, unf=_UNF, entry=_ENTRY, gen=_GEN),
-        imports=_IMPORTS, timeout=250))
+  intros {vars} Hw Hh Hz. destruct ({T}_stages {vars} Hw Hh Hz) as (S1 & S2 & S3).
+  rewrite ({T}_compose {vars}), S1, S2, S3. reflexivity.
+Qed."""
+        d["order"] = d["order"].replace("%(L)s", L)
+        text = text.replace("%(L)s", L) % d
+        ks.append(Kernel("canvas_inv" if inverse else "canvas",
+                         {"w": [640.0], "h": [480.0], "p": [1.0, 2.0, 3.0], "t": [0.5, -1.0, 4.0], "zm": [1.5]},
+                         canvas_dir(inverse), text, imports=_IMPORTS, timeout=250))
     return ks
 
 
@@ -379,10 +389,29 @@ def run_impl(c):
                     mat(lambda: world_to_view(p, t, inverse=inverse)),
                     mat(lambda: view_to_orthographic_projection(w / zoom, h / zoom, inverse=inverse)),
                     mat(lambda: viewport_transform(w, h, inverse=inverse))])
+    # the same forward matrix used through the public apply_transform on the points the property talks about
+    pts = _probe_points(c)
+    if pts and not isinstance(o["fwd"], dict) and all(np.isfinite(o["fwd"])):
+        from polliwog.transform import apply_transform
+        fwd = np.array(o["fwd"]).reshape(4, 4)
+        o["probe_images"] = call_impl(lambda: apply_transform(fwd)(np.array(pts)).tolist())
+        o["probe_single"] = call_impl(lambda: apply_transform(fwd)(np.array(pts[0])).tolist())
     # counted as trivial by the driver: an exception or NaN in either direction
     if any(isinstance(o[d], dict) or not all(np.isfinite(o[d])) for d in ("fwd", "inv")):
         o["raise"] = "degenerate"
     return o
+
+
+def _probe_points(c):
+    kind = _base(c["kind"])
+    if kind == "w2v":
+        return [c["position"], c["target"]]
+    if kind == "ortho":
+        w, h, n, f = c["w"], c["h"], c["near"], c["far"]
+        return [[sx * w / 2, sy * h / 2, z] for sx in (-1, 1) for sy in (-1, 1) for z in (-n, -f)]
+    if kind == "viewport":
+        return [[float(sx), float(sy), float(z)] for sx in (-1, 1) for sy in (-1, 1) for z in (-1, 1)]
+    return [c["position"], c["target"]]
 
 
 def _obs(x):
@@ -458,6 +487,20 @@ def oracle(c, o):
     if o.get("args_unchanged") is False:
         return "argument array was modified"
     f, i = _M(o["fwd"]), _M(o["inv"])
+    # apply_transform(matrix)(points) is the homogeneous matrix-vector product (rows 0..2), stacked and single
+    pts = _probe_points(c)
+    imgs = o.get("probe_images")
+    if isinstance(imgs, dict) or isinstance(o.get("probe_single"), dict):
+        return "apply_transform raised on the returned matrix"
+    if imgs is not None:
+        for k, pt in enumerate(pts):
+            want, mag = _apply(f, [Fr(float(x)) for x in pt])
+            got = imgs[k]
+            if not all(_near(Fr(float(got[j])), want[j], mag[j]) for j in range(3)):
+                return "apply_transform(matrix)(%r) = %r is not the matrix-vector product %r" % (pt, got, [float(x) for x in want])
+        want, mag = _apply(f, [Fr(float(x)) for x in pts[0]])
+        if not all(_near(Fr(float(o["probe_single"][j])), want[j], mag[j]) for j in range(3)):
+            return "apply_transform on a single point is not the matrix-vector product"
     if kind == "w2v":
         r = _inverse_clause(f, i, "world_to_view")
         if r:
